@@ -3,6 +3,7 @@ package main
 import (
 	"fmt"
 	"math/rand"
+	"strings"
 	"sync"
 	"time"
 
@@ -22,7 +23,7 @@ type c04cfg struct {
 }
 
 func runC04(c *Check, rng *rand.Rand) {
-	c.Rule = "every command of the supported table x keys covering all 16384 slots (hash-tagged and plain) on random multi-range topologies; each data command logged by a fake node is judged by the reference slot function, the topology's owner set and the command's role class; every backend connection's command sequence is judged for AUTH / READONLY before the first data command; a live master<->replica swap re-checks READONLY; distinct = (config, command, slot)"
+	c.Rule = "every command of the supported table x keys covering all 16384 slots (hash-tagged and plain) on random multi-range topologies; each data command logged by a fake node is judged by the reference slot function, the topology's owner set and the command's role class; every backend connection's command sequence is judged for AUTH / READONLY before the first data command; a live master<->replica swap re-checks READONLY; a live range cut (head stays, middle loses its owner, tail moves; every node stays) after which nothing for the unowned middle may reach a node; keys include bytes >= 0x80, keys longer than 256 bytes and hash tags closing beyond byte 256; distinct = (config, command, slot)"
 	c.Assumptions = []string{
 		"role classes per Redis: writes (incl. SORT, PFCOUNT), cursor scans and EVAL/EVALSHA must reach the master; reads may reach master or replica; with disable_slave everything must reach the master",
 		"probe connections (INFO/PING/CLUSTER NODES dials) are only checked for AUTH, which the fake node enforces itself (NOAUTH)",
@@ -57,6 +58,7 @@ func runC04(c *Check, rng *rand.Rand) {
 		}(i, cf)
 	}
 	wg.Wait()
+	c04shrink(c, c.Seed*100+77)
 	c.MinEvals = 10000
 }
 
@@ -233,7 +235,23 @@ func c04workload(c *Check, rng *rand.Rand, env *Env, cf c04cfg, phase string, sk
 			slot = rng.Intn(16384)
 		}
 		var key []byte
-		if rng.Intn(8) == 0 {
+		if rng.Intn(10) == 0 {
+			// keys whose slot only the reference knows: bytes >= 0x80 (text and binary),
+			// long keys, hash tags that close beyond byte 256
+			tok := newToken("k")
+			switch rng.Intn(5) {
+			case 0:
+				key = []byte([]string{"ключ:", "鍵-", "clé_", "🔑"}[rng.Intn(4)] + tok)
+			case 1:
+				key = append(randBytesHi(rng, 1+rng.Intn(24)), tok...)
+			case 2:
+				key = []byte(strings.Repeat("L", 257+rng.Intn(1500)) + tok)
+			case 3:
+				key = []byte(strings.Repeat("p", 200+rng.Intn(200)) + "{" + SlotTag(slot) + "}" + tok)
+			default:
+				key = []byte("{" + strings.Repeat("t", 260+rng.Intn(100)) + tok + "}" + "tail")
+			}
+		} else if rng.Intn(8) == 0 {
 			// brace-hostile shapes (the slot is whatever the reference says)
 			tok := newToken("k")
 			shapes := []string{"{}" + tok, "obj{}:" + tok, "a{}b{" + SlotTag(slot) + "}" + tok, "}{" + SlotTag(slot) + "}" + tok, "{" + tok, tok + "}", "{{" + SlotTag(slot) + "}}" + tok,
@@ -444,6 +462,150 @@ func c04judge(c *Check, env *Env, cf c04cfg, topo *Topo, phase string) {
 	c.Sample(map[string]interface{}{"config": cf.name, "phase": phase, "topology": topo.Text(nil), "slots_seen": len(slotsSeen), "commands_seen": len(cmdsSeen)})
 	if !env.P.Alive() {
 		c.Violate(Violation{Class: "proxy-died", Shape: phase, Detail: env.P.PanicLine(), Witness: env.P.OutputTail(2000)})
+	}
+}
+
+// randBytesHi returns n random bytes >= 0x80 (no CR/LF/space issues, never ASCII).
+func randBytesHi(rng *rand.Rand, n int) []byte {
+	b := make([]byte, n)
+	for i := range b {
+		b[i] = byte(0x80 + rng.Intn(0x80))
+	}
+	return b
+}
+
+// c04shrink: a live topology change in which every node stays but a stretch of slots
+// loses its owner (a range is cut: its head stays, its middle is unclaimed, its tail
+// moves to another master). The moved tail is the adoption marker: once a write for
+// it reaches the new master the proxy routes by the new description, and from then on
+// nothing for the unclaimed stretch may reach any node.
+func c04shrink(c *Check, seed int64) {
+	rng := rand.New(rand.NewSource(seed))
+	env, err := NewEnv(EnvOpt{Masters: 4, Replicas: 1})
+	must(err, "start env shrink")
+	defer env.Close()
+	env.Cl.SetHandler(func(r *BReq) Action { return Action{Reply: ValueReply(r)} })
+	for round := 0; round < 2; round++ {
+		cur := env.T
+		x := cur.Nodes[rng.Intn(4)]
+		var y *TNode
+		for _, tn := range cur.Nodes[:4] {
+			if tn != x {
+				y = tn
+			}
+		}
+		// the widest range of x
+		ri := 0
+		for i, r := range x.Slots {
+			if r[1]-r[0] > x.Slots[ri][1]-x.Slots[ri][0] {
+				ri = i
+			}
+		}
+		a, b := x.Slots[ri][0], x.Slots[ri][1]
+		if b-a < 100 {
+			return
+		}
+		m := a + (b-a)/3 + rng.Intn((b-a)/3)
+		h := 1 + rng.Intn(40)
+		nt := &Topo{Order: cur.Order}
+		for _, tn := range cur.Nodes {
+			cp := *tn
+			cp.Slots = append([][2]int(nil), tn.Slots...)
+			if tn == x {
+				cp.Slots[ri] = [2]int{a, m - 1}
+			}
+			if tn == y {
+				cp.Slots = append(cp.Slots, [2]int{m + h, b})
+			}
+			nt.Nodes = append(nt.Nodes, &cp)
+		}
+		nt.Install(env.Cl)
+		env.T = nt
+		cl, err := env.Dial()
+		must(err, "dial")
+		adopted := false
+		got := 0
+		for dl := time.Now().Add(20 * time.Second); time.Now().Before(dl) && !adopted; {
+			tok := newToken("adopt")
+			before := env.Cl.LogLen()
+			cl.Send(Req("SET", Key(m+h+rng.Intn(b-m-h+1), tok), "v"))
+			got++
+			if !cl.WaitReplies(got, 5*time.Second) {
+				break
+			}
+			for _, r := range env.Cl.Log()[before:] {
+				if r.Node == y.Node && r.Cmd == "set" && strings.Contains(FirstKey(r), tok) {
+					adopted = true
+				}
+			}
+			if !adopted {
+				time.Sleep(200 * time.Millisecond)
+			}
+		}
+		cl.Close()
+		if !adopted {
+			c.Count("shrink_not_adopted_within_20s(C14 subject)", 1)
+			return
+		}
+		env.Barrier()
+		before := env.Cl.LogLen()
+		cl, err = env.Dial()
+		must(err, "dial")
+		type sent struct {
+			raw  []byte
+			keys []string
+		}
+		var reqs []sent
+		for i := 0; i < 60; i++ {
+			slot := m + rng.Intn(h)
+			tok := newToken("hole")
+			k := Key(slot, tok)
+			var raw []byte
+			keys := []string{k}
+			switch rng.Intn(5) {
+			case 0:
+				raw = Req("SET", k, "v")
+			case 1:
+				raw = Req("MGET", k, Key(slot, tok+"b"))
+				keys = append(keys, Key(slot, tok+"b"))
+			case 2:
+				raw = Req("DEL", k)
+			case 3:
+				raw = Req("EVAL", "return 1", "1", k)
+			default:
+				raw = Req("GET", k)
+			}
+			reqs = append(reqs, sent{raw, keys})
+			cl.Send(raw)
+		}
+		ok := cl.WaitReplies(len(reqs), 10*time.Second)
+		env.Barrier()
+		snap := cl.Snapshot()
+		cl.Close()
+		shape := fmt.Sprintf("range-cut/hole=%d", h)
+		c.Eval(len(reqs))
+		c.Distinct(fmt.Sprintf("shrink/%d/%d", round, h))
+		for _, r := range env.Cl.Log()[before:] {
+			ks := KeySlot([]byte(FirstKey(r)))
+			if ks >= m && ks < m+h && strings.Contains(FirstKey(r), "hole") {
+				c.Violate(Violation{Class: "request-for-unowned-slot-forwarded", Shape: shape,
+					Detail:  fmt.Sprintf("slots %d-%d lost their owner (every node stayed; the tail %d-%d of the cut range demonstrably moved to its new master), but %s for slot %d was still delivered to node %s", m, m+h-1, m+h, b, strings.ToUpper(r.Cmd), ks, r.Node.Addr),
+					Witness: map[string]interface{}{"request": Q(r.Raw[:minInt(len(r.Raw), 200)]), "previous_owner": x.Addr, "description": string(nt.Reply(env.Cl.Nodes[0]))}})
+				return
+			}
+		}
+		if !ok {
+			c.Count("shrink_replies_incomplete(C15/C09 subject)", 1)
+		}
+		for i, rp := range snap.Replies {
+			if i < len(reqs) && rp.Val.Kind != '-' {
+				c.Violate(Violation{Class: "request-for-unowned-slot-answered-with-data", Shape: shape,
+					Detail:  fmt.Sprintf("request %s for a slot without owner was answered %s", Q(reqs[i].raw), Q(rp.Val.Raw[:minInt(len(rp.Val.Raw), 80)])),
+					Witness: map[string]interface{}{"hole": []int{m, m + h - 1}}})
+				return
+			}
+		}
+		c.Count("unowned_slot_requests_verified", int64(len(reqs)))
 	}
 }
 
